@@ -807,34 +807,39 @@ Section Helpers.
     | _ => ah_inplace h && ah_if h
     end.
 
+  (* the documented result, frozen-ness aside *)
+  Definition spec_unfrozen (x : aval) (hp : shelper) (h : ahargs) : sres aval :=
+    match hp with
+    | SWith a => spec_with x a (apos0 h) (ah_kw h)
+    | SSetAttrOp a => spec_with x a (apos0 h) None
+    | SUpdate a => spec_update x a (apos0 h) (ah_kw h)
+    | STransform a => spec_transform x a (ah_fn h) (ah_kwfn h)
+    | SReset a => spec_reset_attr x a
+    | SDelAttrOp a => spec_reset_attr x a
+    | SResetTop => spec_reset x
+    | SUpdateTop => spec_update_top x (apos0 h) (ah_kw h)
+    | STransformTop => spec_transform_top x (ah_fn h) (ah_kwfn h)
+    | SWithItem a => spec_elem_helper x a h spec_with_item
+    | SUpdateItem a => spec_elem_helper x a h (fun sp c h => spec_change_item sp c h false)
+    | STransformItem a => spec_elem_helper x a h (fun sp c h => spec_change_item sp c h true)
+    | SWithoutItem a => spec_elem_helper x a h spec_without_item
+    end.
+
   Definition spec_helper (x : aval) (hp : shelper) (h : ahargs) : sres aval :=
     match x with
     | AInst c _ =>
         if negb (ah_if h) then SOk x else
+        let r := spec_unfrozen x hp h in
         if mutates_in_place hp h && frozen_class c then
-          (* frozen instances cannot be mutated in place; calls that change nothing are let through *)
-          match hp with
-          | SWith _ | SSetAttrOp _ => match apos0 h with AUnchanged => SOk x | _ => SErr FrozenErr end
-          | SUpdate _ => match apos0 h with AUnchanged => SAny | _ => SErr FrozenErr end
-          | SUpdateTop | STransformTop => SAny      (* may or may not assign: left to C07 *)
-          | _ => SErr FrozenErr
+          (* a frozen instance cannot be mutated in place: the call must fail, with
+             FrozenInstanceError unless it fails for another documented reason as well;
+             calls that change nothing by definition (UNCHANGED) are let through *)
+          match hp, apos0 h with
+          | SWith _, AUnchanged | SSetAttrOp _, AUnchanged | SUpdate _, AUnchanged => SOk x
+          | SUpdateTop, _ | STransformTop, _ => SAny      (* may or may not assign: left to C07 *)
+          | _, _ => match r with SOk _ => SErr FrozenErr | SAny => SAny | _ => SAnyErr end
           end
-        else
-        match hp with
-        | SWith a => spec_with x a (apos0 h) (ah_kw h)
-        | SSetAttrOp a => spec_with x a (apos0 h) None
-        | SUpdate a => spec_update x a (apos0 h) (ah_kw h)
-        | STransform a => spec_transform x a (ah_fn h) (ah_kwfn h)
-        | SReset a => spec_reset_attr x a
-        | SDelAttrOp a => spec_reset_attr x a
-        | SResetTop => spec_reset x
-        | SUpdateTop => spec_update_top x (apos0 h) (ah_kw h)
-        | STransformTop => spec_transform_top x (ah_fn h) (ah_kwfn h)
-        | SWithItem a => spec_elem_helper x a h spec_with_item
-        | SUpdateItem a => spec_elem_helper x a h (fun sp c h => spec_change_item sp c h false)
-        | STransformItem a => spec_elem_helper x a h (fun sp c h => spec_change_item sp c h true)
-        | SWithoutItem a => spec_elem_helper x a h spec_without_item
-        end
+        else r
     | _ => SAny
     end.
 End Helpers.
